@@ -477,6 +477,7 @@ This process is a two-phase process, during the midst of it the peer group's lea
 
 #![deny(clippy::all)]
 #![deny(missing_docs)]
+#![cfg_attr(tikv_raft_rs_verif, allow(missing_docs))]
 #![recursion_limit = "128"]
 // TODO: remove this when we update the mininum rust compatible version.
 #![allow(unused_imports)]
@@ -538,6 +539,15 @@ pub use status::Status;
 pub use storage::{GetEntriesContext, RaftState, Storage};
 pub use tracker::{Inflights, Progress, ProgressState, ProgressTracker};
 pub use util::majority;
+
+/// Verification hook: re-exports of crate-private items needed by the external
+/// conformance harness. Compiled only with `--cfg tikv_raft_rs_verif`.
+#[cfg(tikv_raft_rs_verif)]
+pub mod verif_export {
+    pub use crate::confchange::restore;
+    pub use crate::quorum::{AckIndexer, AckedIndexer, Index, VoteResult};
+    pub use crate::tracker::{Configuration as TrackerConfiguration, ProgressMap};
+}
 
 pub mod prelude {
     //! A "prelude" for crates using the `raft` crate.
